@@ -157,13 +157,12 @@ class Stabilizer(StateRepresentationBase):
         :return: the measurement outcome
         :rtype: int
         """
-        (
-            self._tableau,
-            outcome,
-            _,
-        ) = sfc.x_measurement_gate(
-            self._tableau, qubit_position, measurement_determinism
+        # an X-basis measurement is a Z-basis measurement conjugated by Hadamard gates
+        tableau = transform.hadamard_gate(self._tableau, qubit_position)
+        tableau, outcome, _ = sfc.z_measurement_gate(
+            tableau, qubit_position, measurement_determinism
         )
+        self._tableau = transform.hadamard_gate(tableau, qubit_position)
         return outcome
 
     def apply_hadamard(self, qubit_position):
